@@ -40,3 +40,4 @@ pub fn refid_from_u32(v: u32) -> crate::ReferenceId {
 pub fn refid_to_u32(r: crate::ReferenceId) -> u32 {
     u32::from_be_bytes(r.to_bytes())
 }
+pub use crate::packet::verif_hook as packet;
